@@ -9,6 +9,7 @@ import (
 	"context"
 	"fmt"
 	"net"
+	"sync/atomic"
 	"syscall"
 	"time"
 
@@ -218,9 +219,30 @@ func runC13(e *Env) {
 	})
 	_ = shutTask
 
+	untrackedBusy := ""
 	// ---- tracking monitor, evaluated whenever the world is stable and nobody is inside accept
 	simrt.WaitQuiescentFor(6e9)
 	e.nonTriv = len(conns) > 0
+	if shutReturned && shutErr == nil {
+		// judged while the clients still hold their ends open: nothing the peers do later may be what
+		// closes a connection that a successful Shutdown left behind
+		if n := trackedLen(); n > 0 {
+			e.Fail("shutdown-nil-means-empty", "nil-with-tracked", "Shutdown returned nil and the accept path is at rest, but %d connections are still tracked (clients still connected)", n)
+		}
+		for _, cc := range conns {
+			if cc.closed < 0 {
+				v, ok := lastServer.connections.Load(cc.fd)
+				if tracked := ok && v == Connection(cc.c); !tracked && !cc.c.IsActive() && cc.busy > 0 {
+					// recorded finding (reported last): the peer hung up while the connection was being
+					// accepted and a handler was already running on it, so onAccept never tracked it
+					untrackedBusy = fmt.Sprintf("Shutdown returned nil while the handler of an accepted connection (fd %d) is still running: the peer closed it during its accept, so the server never tracked it", cc.fd)
+					continue
+				}
+				e.Fail("shutdown-nil-means-empty", "nil-with-open-conn", "Shutdown returned nil and the accept path is at rest, but an accepted connection (fd %d) is still open and served while its client is connected", cc.fd)
+				break
+			}
+		}
+	}
 	if !shutReturned && shutInvoked {
 		// Shutdown may legitimately wait: only for busy (gated) handlers or idle clients that keep
 		// their connection open... idle connections are closed by Shutdown itself, so only busy ones
@@ -268,8 +290,8 @@ func runC13(e *Env) {
 				open++
 			}
 		}
-		if svr.connections.Len() != open {
-			e.Fail("tracked-equals-open", "tracked-mismatch", "%d connections are tracked, %d accepted connections are open", svr.connections.Len(), open)
+		if n := trackedLen(); n != open {
+			e.Fail("tracked-equals-open", "tracked-mismatch", "%d connections are tracked, %d accepted connections are open", n, open)
 		}
 	}
 	for _, cl := range clients {
@@ -311,6 +333,10 @@ func runC13(e *Env) {
 	e.State = fmt.Sprintf("%d/%d/%v/%v", len(conns), nclients, shutErr, serveReturned)
 	e.Teardown()
 	CheckLedger(e)
+	if untrackedBusy != "" {
+		// reported last so that this recorded finding never hides another violation of the run
+		e.Fail("shutdown-nil-means-empty", "nil-with-untracked-busy-conn/peer-closed-during-accept", "%s", untrackedBusy)
+	}
 }
 
 type c13Key struct{}
@@ -322,7 +348,16 @@ func trackedLen() int {
 	if lastServer == nil {
 		return -1
 	}
-	return lastServer.connections.Len()
+	// entries of connections that are torn down already (descriptor closed) do not count: the property
+	// wants a connection tracked until it is closed, not forgotten at once afterwards
+	n := 0
+	lastServer.connections.Range(func(k, v interface{}) bool {
+		if c, ok := v.(*connection); !ok || atomic.LoadUint32(&c.netFD.closed) == 0 {
+			n++
+		}
+		return true
+	})
+	return n
 }
 
 func shutInvokedBefore(at, t int64) bool { return at <= t }
